@@ -12,7 +12,7 @@ register(
         "GtModel.C10.no_list_edits_same_length_positional",
         "GtModel.C10.no_list_edits_root",
     ],
-    streams=["script"],
+    streams=["script", "scriptx"],
     assumptions=[
         "the engine has fully tightened every bound (the model is the static final script)",
         "trees are those json.build_tree makes; the list options do not reach CSV rows / XML child lists "
